@@ -115,7 +115,7 @@ pub fn unique_genome(rng: &mut Rng, m: usize, len: usize) -> Option<Vec<u8>> {
 
 /// every sample's m-mers unique on both strands, and an m-mer shared between samples sits at
 /// the same ancestor coordinate in the same orientation. `labels[s][i]` = ancestor label of base i.
-fn in_domain(samples: &[Vec<u8>], labels: &[Vec<(usize, usize)>], m: usize) -> bool {
+fn in_domain(samples: &[Vec<u8>], labels: &[Vec<(usize, usize)>], m: usize, check_labels: bool) -> bool {
     let mut global: BTreeMap<u64, ((usize, usize), bool)> = BTreeMap::new();
     for (s, seq) in samples.iter().enumerate() {
         let mut own: BTreeSet<u64> = BTreeSet::new();
@@ -129,7 +129,7 @@ fn in_domain(samples: &[Vec<u8>], labels: &[Vec<(usize, usize)>], m: usize) -> b
             }
             let lab = (labels[s][i], fwd);
             match global.get(&c) {
-                Some(l) if *l != lab => return false,
+                Some(l) if *l != lab && check_labels => return false,
                 Some(_) => {}
                 None => {
                     global.insert(c, lab);
@@ -203,7 +203,7 @@ impl LoWorkload {
                 sites.insert(p, String::from_utf8(assign).unwrap());
             }
             let labels: Vec<Vec<(usize, usize)>> = seqs.iter().map(|s| (0..s.len()).map(|i| (i, 0)).collect()).collect();
-            if !in_domain(&seqs, &labels, m) {
+            if !in_domain(&seqs, &labels, m, true) {
                 continue;
             }
             let samples: Vec<Sample> = seqs.into_iter().enumerate().map(|(i, s)| Sample { name: format!("g{i}"), records: vec![("c".into(), if rng.chance(30) { revcomp(&s) } else { s })], wrap: *rng.pick(&[0usize, 60]) }).collect();
@@ -239,10 +239,14 @@ impl LoWorkload {
                 if p + 2 * k + 10 >= len {
                     break;
                 }
-                let l = rng.range(1, 10.min(k - 1));
+                // short indels are the common ones: half of the planted indels have length 1..2
+                let l = if rng.chance(50) { rng.range(1, 2) } else { rng.range(1, 10.min(k - 1)) };
                 let carriers = rng.proper_subset(n);
                 if rng.chance(50) {
-                    indels.push(Indel { pos: p, ins: String::from_utf8(rng.dna(l)).unwrap(), del: 0, carriers });
+                    // a third of the insertions repeat the bases next to them (homopolymer extension,
+                    // tandem copy): their placement is ambiguous, which is still an isolated indel
+                    let ins = if rng.chance(33) && p >= l { anc[p - l..p].to_vec() } else { rng.dna(l) };
+                    indels.push(Indel { pos: p, ins: String::from_utf8(ins).unwrap(), del: 0, carriers });
                 } else {
                     indels.push(Indel { pos: p, ins: String::new(), del: l, carriers });
                 }
@@ -275,8 +279,29 @@ impl LoWorkload {
                 seqs.push(seq);
                 labels.push(lab);
             }
-            // a deletion re-labels nothing, but a k-mer spanning it exists only in carriers: fine.
-            if !in_domain(&seqs, &labels, m) {
+            // C18's domain: the ancestor has unique (k-1)-mers; every sample must keep that (an indel
+            // could create a repeat by chance). An indel whose placement is ambiguous (a base
+            // inserted next to the same base, a tandem copy) is inside the domain, so (k-1)-mers
+            // shared between samples need not carry the same label here.
+            if !in_domain(&seqs, &labels, m, false) {
+                continue;
+            }
+            // "repeat-free": no microsatellite (period 2..4, three or more copies) within k of an
+            // indel in any sample - there one event has several bubbles and descriptions
+            let micro = |seq: &[u8], lo: usize, hi: usize| -> bool {
+                let hi = hi.min(seq.len());
+                for p in 2..=4usize {
+                    let mut i = lo;
+                    while i + 3 * p <= hi {
+                        if seq[i..i + p] == seq[i + p..i + 2 * p] && seq[i..i + p] == seq[i + 2 * p..i + 3 * p] && seq[i..i + p].iter().any(|b| *b != seq[i]) {
+                            return true;
+                        }
+                        i += 1;
+                    }
+                }
+                false
+            };
+            if indels.iter().any(|d| seqs.iter().any(|s| micro(s, d.pos.saturating_sub(k + 12), d.pos + k + 12))) {
                 continue;
             }
             let samples: Vec<Sample> = seqs.into_iter().enumerate().map(|(i, s)| Sample { name: format!("g{i}"), records: vec![("c".into(), if rng.chance(30) { revcomp(&s) } else { s })], wrap: 0 }).collect();
@@ -575,13 +600,19 @@ impl Workload for LoWorkload {
                 _ => {
                     // indel VCF
                     let vcf = dir.read(&format!("{tag}_indels.vcf")).unwrap_or_default();
-                    let mut matched: BTreeMap<(usize, BTreeSet<usize>), usize> = BTreeMap::new();
-                    let mut planted_keys: BTreeMap<(usize, BTreeSet<usize>), usize> = BTreeMap::new();
+                    // A record corresponds to a planted indel when it splits the samples the way the
+                    // indel's carriers do. (Allele length and which side is "longer" are not compared:
+                    // next to a tandem repeat the same event has several equivalent descriptions; the
+                    // string search above already decides whether the described alleles are real.)
+                    let part = |set: &BTreeSet<usize>| -> BTreeSet<usize> {
+                        let comp: BTreeSet<usize> = (0..n).filter(|s| !set.contains(s)).collect();
+                        if comp < *set { comp } else { set.clone() }
+                    };
+                    let mut matched: BTreeMap<BTreeSet<usize>, usize> = BTreeMap::new();
+                    let mut planted_keys: BTreeMap<BTreeSet<usize>, usize> = BTreeMap::new();
                     for d in &c.indels {
-                        let l = if d.del > 0 { d.del } else { d.ins.len() };
                         let carriers: BTreeSet<usize> = d.carriers.iter().copied().collect();
-                        let long: BTreeSet<usize> = if d.del > 0 { (0..n).filter(|s| !carriers.contains(s)).collect() } else { carriers };
-                        *planted_keys.entry((l, long)).or_insert(0) += 1;
+                        *planted_keys.entry(part(&carriers)).or_insert(0) += 1;
                     }
                     let mut nrec = 0;
                     for line in String::from_utf8_lossy(&vcf).lines() {
@@ -620,12 +651,14 @@ impl Workload for LoWorkload {
                         let dl = (refa.len() as i64 - alta.len() as i64).unsigned_abs() as usize;
                         let long_is_ref = refa.len() > alta.len();
                         let long_set: BTreeSet<usize> = (0..n).filter(|s| f[9 + s] == if long_is_ref { "0" } else { "1" }).collect();
-                        // planted indels are identified by (length, set of samples with the longer allele);
-                        // several planted indels may share that key, then they form a group
-                        let key = (dl, long_set.clone());
-                        if !planted_keys.contains_key(&key) {
+                        let key = part(&long_set);
+                        let planted_len: BTreeSet<usize> = c.indels.iter().filter(|d| part(&d.carriers.iter().copied().collect()) == key).map(|d| d.del.max(d.ins.len())).collect();
+                        if !planted_keys.contains_key(&key) || f[9..].iter().any(|g| *g != "0" && *g != "1") {
                             viol = Some(("lo:indel-record-matches-no-planted-indel".into(), format!("{ctxs}: record {line:?}; planted {:?}", c.indels)));
                             break;
+                        }
+                        if !planted_len.contains(&dl) {
+                            probe("c18_record_describes_planted_indel_with_other_allele_length");
                         }
                         *matched.entry(key).or_insert(0) += 1;
                     }
@@ -633,7 +666,7 @@ impl Workload for LoWorkload {
                         break;
                     }
                     if let Some((key, cnt)) = matched.iter().find(|(k, c)| **c > planted_keys[*k]) {
-                        viol = Some(("lo:indel-reported-twice".into(), format!("{ctxs}: {} planted indel(s) of length {} with the longer allele in samples {:?} are reported by {cnt} records", planted_keys[key], key.0, key.1)));
+                        viol = Some(("lo:indel-reported-twice".into(), format!("{ctxs}: {} planted indel(s) splitting the samples as {:?} / rest are reported by {cnt} records", planted_keys[key], key)));
                         break;
                     }
                     if vi == 0 {
